@@ -16,12 +16,12 @@ CHECKS = {
     'C01': dict(
         technique='decision-table extraction of one capture step folded over all small streams x chunkings; abstract interpretation of the inspector classes through their real eat_chunk/post_process/region_complete/finish code with only the capture arithmetic abstracted (symbolic region bytes; lazy path enumeration per image and chunk schedule), extracted verdict terms evaluated on image families and compared with reference decoders written from the format specifications (static: nothing from /repo is executed); schedule-independence of the verdict; region geometry',
         category='other', design_ref='DESIGN.md section 4, C01',
-        text='Capture engine: the one-step table of eat_chunk on a region with symbolic offset/length/min_length/data/position is folded over every stream up to 6 (thorough 8) bytes x every chunking incl. empty chunks x every offset/length/window: retained bytes == stream bytes after every chunk. Orchestration: every inspector x image family x five chunk schedules (one chunk, region-after-defining-chunk, byte-count trickle through every length the class distinguishes, min_length stop, small-then-giant): complete/match/size/safety must not depend on the schedule. Regions defined while streaming must not start before data already consumed; tail windows must pre-exist; format queries between reads must not change feeding.',
+        text='Capture engine: the one-step table of eat_chunk on a region with symbolic offset/length/min_length/data/position is folded over every stream up to 6 (thorough 8) bytes x every chunking incl. empty chunks x every offset/length/window: retained bytes == stream bytes after every chunk. Orchestration: every inspector x image family x six chunk schedules (one chunk, region-after-defining-chunk, byte-count trickle through every length the class distinguishes, min_length stop, small-then-giant, first-4KiB-in-the-defining-chunk): complete/match/size/safety must not depend on the schedule. Regions defined while streaming must not start before data already consumed (per construct, and per image x schedule against the stream position at the start of the current chunk); tail windows must pre-exist; format queries between reads must not change feeding.',
         note='The composition of the capture step with the orchestration is covered through the abstract capture model (a region eventually holds stream[offset:offset+n]); five genuine chunking dependences of the pinned tree are listed as known findings (F1a, F1b, F2, F3, F4).'),
     'C02': dict(
         technique='exhaustive decision-table extraction of the aggregator and of cli.main; abstract interpretation of the inspector classes through their real eat_chunk/post_process/region_complete/finish code with only the capture arithmetic abstracted (symbolic region bytes; lazy path enumeration per image and chunk schedule), extracted verdict terms evaluated on image families and compared with reference decoders written from the format specifications (static: nothing from /repo is executed)',
         category='other', design_ref='DESIGN.md section 4, C02',
-        text="safety_check / SafetyCheck.__call__ for every combination of complete x match x per-check outcome (0..3 checks); every inspector's safety verdict on image families with every safe/unsafe trait of the property (64 feature bits in thorough, versions, backing offsets, descriptor line classes and createType spellings, MBR tables, footer perturbations, truncations) under five schedules vs the reference decoder; registered check sets; cli.main over detection x check outcomes.",
+        text="safety_check / SafetyCheck.__call__ for every combination of complete x match x per-check outcome (0..3 checks); every inspector's safety verdict on image families with every safe/unsafe trait of the property (64 feature bits in thorough, versions, backing offsets, descriptor line classes and createType spellings, MBR tables, footer perturbations, truncations) under six schedules vs the reference decoder; registered check sets; cli.main over detection x check outcomes.",
         note='Reference decoders in sa/specs/formats.py are written from the public format descriptions and the property text; descriptor texts are bounded by the generated family.'),
     'C03': dict(
         technique='exhaustive decision-table extraction of InspectWrapper.formats/format with abstract inspectors; abstract interpretation of the inspector classes through their real eat_chunk/post_process/region_complete/finish code with only the capture arithmetic abstracted (symbolic region bytes; lazy path enumeration per image and chunk schedule), extracted verdict terms evaluated on image families and compared with reference decoders written from the format specifications (static: nothing from /repo is executed); registry check',
@@ -31,7 +31,7 @@ CHECKS = {
     'C05': dict(
         technique='proof obligations on the syntax tree and on all symbolically enumerated paths (who-writes, must-truncate on the extracted capture step, interval analysis of every constructed region length), plus concrete witnesses from the abstract streaming model on hostile images',
         category='proof', design_ref='DESIGN.md section 4, C05',
-        text='O1-O7 discharged: region data/length/table writers, truncation on every path of each capture step, finite interval bound for every region constructed on any symbolic path of any inspector (constants, min() clamps, field widths), per-inspector sums within 1.5 MiB / 512 KiB, context_info truthful; hostile images (every length/count/offset field at boundary and maximal values, 3 MiB text/zero streams) observed after every chunk under five schedules.',
+        text='O1-O7 discharged: region data/length/table writers, truncation on every path of each capture step, finite interval bound for every region constructed on any symbolic path of any inspector (constants, min() clamps, field widths), per-inspector sums within 1.5 MiB / 512 KiB, context_info truthful; hostile images (every length/count/offset field at boundary and maximal values, 3 MiB text/zero streams) observed after every chunk under six schedules.',
         note='Assumes Python slice semantics and that nothing outside the package touches private attributes; symbolic loops unrolled once for the bound enumeration (region constructors do not depend on the iteration count).'),
     'C06': dict(
         technique='exhaustive decision-table extraction of InspectWrapper read/iteration with abstract inspectors following fault plans (static)',
@@ -41,13 +41,13 @@ CHECKS = {
     'C07': dict(
         technique='abstract interpretation of the inspector classes through their real eat_chunk/post_process/region_complete/finish code with only the capture arithmetic abstracted (symbolic region bytes; lazy path enumeration per image and chunk schedule), extracted verdict terms evaluated on image families and compared with reference decoders written from the format specifications (static: nothing from /repo is executed)',
         category='other', design_ref='DESIGN.md section 4, C07',
-        text="virtual_size of every inspector on image families (declared sizes over each field's range incl. 2^63, 2^64-1; VHDX table padding up to 2047 entries, metadata placement, item offsets; VMDK descriptor lengths; ISO block sizes; truncations at structure boundaries) under five chunk schedules vs the reference decoder; after every chunk the size is 0 or final and the accessor does not raise.",
+        text="virtual_size of every inspector on image families (declared sizes over each field's range incl. 2^63, 2^64-1; VHDX table padding up to 2047 entries, metadata placement, item offsets; VMDK descriptor lengths; ISO block sizes; truncations at structure boundaries) under six chunk schedules vs the reference decoder; after every chunk the size is 0 or final and the accessor does not raise.",
         note='Sizes are checked on the generated grid, not for all 2^64 values; capture arithmetic is decided separately (C01).'),
     'C04': dict(
         technique='constant folding of the pattern tables, regex-tree shape and character-set algebra per template, extraction of mask_password as an ordered substitution term evaluated with the extracted patterns on generated messages (static extraction + table evaluation)',
         category='other', design_ref='DESIGN.md section 4, C04',
         text='Key list vs the 35 reference keys; every template compiled for every key with IGNORECASE; per-template shape (groups, [0-9]* after the key) and value-class set algebra (an excluded non-delimiter character truncates the mask); the extracted substitution pipeline is evaluated on 12k generated messages: every key x 6 spellings x 13 renderings x secrets with metacharacters / non-ASCII / spaces, two secrets per message, other masks, no-key messages, idempotence.',
-        note='Long-message interactions beyond two secrets are not decided; stdlib re evaluates the extracted constant patterns on generated messages only; two known findings (wildcard template, = in --key value) are listed in known_findings.json.'),
+        note='Long-message interactions beyond two secrets are not decided; stdlib re evaluates the extracted constant patterns on generated messages only; three known findings (wildcard template, = in --key value, dash-leading secret under a compound key) are listed in known_findings.json.'),
     'C08': dict(
         technique='decision-table extraction by path-sensitive abstract interpretation of the source (static; nothing from /repo is executed), extracted terms compared with an oracle written from the property on value grids realising every case the code distinguishes; effect log for non-mutation',
         category='other', design_ref='DESIGN.md section 4, C08',
